@@ -375,6 +375,13 @@ where
                 .annotations()
                 .filter_all(annotations.deref().clone(), key.rootstore())
                 .test(),
+            Filter::Annotation(handle, SelectionQualifier::Normal, _) => {
+                key.annotations().filter_handle(*handle).test()
+            }
+            Filter::Keys(handles, FilterMode::Any, _) => handles.contains(&key.fullhandle()),
+            Filter::BorrowedKeys(handles, FilterMode::Any, _) => {
+                handles.contains(&key.fullhandle())
+            }
             Filter::Keys(_, FilterMode::All, _) => {
                 unreachable!("not handled by this iterator but by FilterAllIter")
             }
